@@ -547,6 +547,15 @@ impl SimDaemon {
         Ok(())
     }
 
+    /// get_metrics(), answered in a loop iteration of its own.
+    pub fn metrics(&mut self) -> Option<std::collections::HashMap<String, i64>> {
+        self.push(Ev::Api("get_metrics()".into()));
+        let rx = self.d.get_metrics().ok()?;
+        self.dirty = true;
+        let _ = self.step();
+        rx.try_recv().ok()
+    }
+
     pub fn shutdown(&mut self) -> Result<(), mdns_sd::Error> {
         self.push(Ev::Api("shutdown()".into()));
         let rx = self.d.shutdown()?;
